@@ -1,8 +1,8 @@
 SPECIFICATION GSpec
-CONSTANTS N1 = 3
-          N2 = 1
-          ND = 0
-          NCTX = 8
+CONSTANTS N1 = 1
+          N2 = 0
+          ND = 2
+          NCTX = 4
           ALPHA = "full"
 CHECK_DEADLOCK FALSE
 INVARIANT Emit
